@@ -276,7 +276,7 @@ fn obj_refs(k: &mut K) -> Vec<(u8, &mut usize)> {
         K::Wait { cv, m } => vec![(3, cv), (1, m)],
         K::NotifyOne { cv } | K::NotifyAll { cv } => vec![(3, cv)],
         K::NWait { n } | K::NNotify { n } => vec![(4, n)],
-        K::Send { ch, .. } | K::Recv { ch } | K::TryRecv { ch } | K::DropRx { ch } => vec![(5, ch)],
+        K::Send { ch, .. } | K::Recv { ch } | K::TryRecv { ch } | K::DropRx { ch } | K::ForgetRx { ch } => vec![(5, ch)],
         K::CellRead { c } | K::CellWrite { c } => vec![(6, c)],
         _ => vec![],
     }
@@ -729,5 +729,381 @@ pub fn chan_family(nsenders: usize, max_sends: usize, max_recv: usize, with_drop
             }
         }
     }
+    out
+}
+
+// ------------------------------------------------------------------------------------------
+// RACE: cell accesses inserted into synchronisation idioms
+// ------------------------------------------------------------------------------------------
+
+/// Insert `op` at position `pos` of thread `t`, fixing up guard indices.
+pub fn insert_op(p: &Program, t: usize, pos: usize, op: Op) -> Program {
+    let mut q = p.clone();
+    for o in q.threads[t].iter_mut() {
+        if let Some(g) = o.g.as_mut() {
+            if g.idx >= pos {
+                g.idx += 1;
+            }
+        }
+    }
+    q.threads[t].insert(pos, op);
+    q
+}
+
+/// All ways to add two conflicting accesses to a new cell in two different threads.
+/// `guards`: additionally guard an inserted access by "the load just before it returned v".
+pub fn with_cell_pair(p: &Program, guards: bool, include_main: bool) -> Vec<Program> {
+    let mut out = vec![];
+    let c = p.objs.cells;
+    let first = if include_main { 0 } else { 1 };
+    let n = p.threads.len();
+    // values stored per atomic (for guards)
+    let mut vals: Vec<Vec<u64>> = vec![vec![]; p.objs.atomics.len()];
+    for op in p.threads.iter().flatten() {
+        match op.k {
+            K::Store { a, v, .. } | K::Swap { a, v, .. } => vals[a].push(v),
+            K::Cas { a, new, .. } => vals[a].push(new),
+            K::FetchAdd { a, v, .. } if v != 0 => vals[a].push(v),
+            _ => {}
+        }
+    }
+    let variants = |q: &Program, t: usize, pos: usize, k: K| -> Vec<Op> {
+        let mut v = vec![Op::from(k.clone())];
+        if guards && pos > 0 {
+            if let K::Load { a, .. } = q.threads[t][pos - 1].k {
+                if q.threads[t][pos - 1].g.is_none() {
+                    for &x in &vals[a] {
+                        v.push(k.clone().when(pos - 1, Res::V(x)));
+                    }
+                }
+            }
+        }
+        v
+    };
+    for ta in first..n {
+        for tb in (ta + 1)..n {
+            // main: only between the last spawn and the first join (concurrent part)
+            let range = |t: usize| -> (usize, usize) {
+                if t == 0 {
+                    let s = p.threads[0].iter().rposition(|o| matches!(o.k, K::Spawn { .. })).map(|x| x + 1).unwrap_or(0);
+                    let j = p.threads[0].iter().position(|o| matches!(o.k, K::Join { .. })).unwrap_or(p.threads[0].len());
+                    (s, j)
+                } else {
+                    (0, p.threads[t].len())
+                }
+            };
+            let (a0, a1) = range(ta);
+            let (b0, b1) = range(tb);
+            for pa in a0..=a1 {
+                for pb in b0..=b1 {
+                    for (ka, kb) in [(K::CellWrite { c }, K::CellRead { c }), (K::CellRead { c }, K::CellWrite { c }), (K::CellWrite { c }, K::CellWrite { c })] {
+                        for oa in variants(p, ta, pa, ka.clone()) {
+                            let q1 = insert_op(p, ta, pa, oa);
+                            for ob in variants(&q1, tb, pb, kb.clone()) {
+                                let mut q = insert_op(&q1, tb, pb, ob);
+                                q.objs.cells = c + 1;
+                                q.name = format!("{}+cell", p.name);
+                                out.push(q);
+                            }
+                        }
+                    }
+                }
+            }
+        }
+    }
+    out
+}
+
+pub fn race_a(tier: &str) -> Vec<Program> {
+    let mut out = vec![];
+    let mut seen = HashSet::new();
+    let base: Vec<Program> = if tier == "quick" { lit(1, 2, 2, 3, false, false) } else { lit(1, 2, 2, 4, true, false) };
+    for b in &base {
+        // drop main's final reads: only the verdict matters
+        let mut b = b.clone();
+        while matches!(b.threads[0].last().map(|o| &o.k), Some(K::Load { .. })) {
+            b.threads[0].pop();
+        }
+        for q in with_cell_pair(&b, true, false) {
+            if seen.insert(q.text()) {
+                out.push(q);
+            }
+        }
+    }
+    out.extend(race_a_sentinels());
+    out
+}
+
+pub fn race_a_sentinels() -> Vec<Program> {
+    use crate::ir::MO::*;
+    let mk = |name: &str, nat: usize, ch: Vec<Vec<Op>>| with_main(name, Objs { atomics: vec![0; nat], cells: 1, ..Default::default() }, vec![], ch, vec![], vec![]);
+    let g = |k: K, idx: usize, v: u64| k.when(idx, Res::V(v));
+    let mut out = vec![];
+    // S29 guarded MP with every ordering pair, and the two-hop variant
+    for &s in &MO::STORES {
+        for &l in &MO::LOADS {
+            out.push(mk("S29-mp", 1, vec![vec![wr(0), st(0, 1, s)], vec![ld(0, l), g(K::CellRead { c: 0 }, 0, 1)]]));
+            out.push(mk("S29-2hop", 2, vec![vec![wr(0), st(0, 1, s)], vec![ld(0, l), g(K::Store { a: 1, v: 1, mo: s }, 0, 1)], vec![ld(1, l), g(K::CellRead { c: 0 }, 0, 1)]]));
+        }
+    }
+    // fences on both sides
+    for &f1 in &MO::FENCES {
+        for &f2 in &MO::FENCES {
+            out.push(mk("S29-mp-fences", 1, vec![vec![wr(0), fence(f1), st(0, 1, Rlx)], vec![ld(0, Rlx), fence(f2), g(K::CellRead { c: 0 }, 0, 1)]]));
+        }
+    }
+    // release sequence through an RMW of a third thread
+    for &u in &MO::RMWS {
+        out.push(mk("S29-relseq", 1, vec![vec![wr(0), st(0, 1, Rel)], vec![fadd(0, 16, u)], vec![ld(0, Acq), g(K::CellRead { c: 0 }, 0, 17)]]));
+    }
+    // S30 SeqCst fences are not happens-before
+    out.push(mk("S30", 0, vec![vec![wr(0), fence(Sc)], vec![fence(Sc), rd(0)]]));
+    // S31 with_mut / unsync_load against atomic accesses
+    for k in [K::WithMut { a: 0 }, K::UnsyncLoad { a: 0 }] {
+        for other in [ld(0, Acq), st(0, 1, Rel), fadd(0, 1, AcqRel)] {
+            let p = with_main("S31", atomics(1), vec![], vec![vec![k.clone().into()], vec![other.clone()]], vec![], vec![]);
+            out.push(p);
+            // ordered variant: the non-atomic access is in main after the join
+            let p = with_main("S31-ordered", atomics(1), vec![], vec![vec![other]], vec![], vec![k.clone().into()]);
+            out.push(p);
+        }
+    }
+    out
+}
+
+/// RACE-s: two cell accesses inserted into small programs over locks, channels, notify,
+/// condvars and park/unpark.
+pub fn race_s(tier: &str) -> Vec<Program> {
+    let mut base: Vec<Program> = vec![];
+    if tier == "quick" {
+        base.extend(lock_family(1, 0, 2, 2, 4, false, false));
+        base.extend(lock_family(0, 1, 2, 2, 4, false, false));
+        base.extend(chan_family(1, 1, 1, false));
+        base.extend(wait_family(1, 1, 1, 6, true, true, false));
+    } else {
+        base.extend(lock_family(1, 1, 2, 2, 4, true, false));
+        base.extend(lock_family(1, 0, 3, 2, 6, false, false));
+        base.extend(chan_family(1, 2, 2, false));
+        base.extend(chan_family(2, 1, 2, false));
+        base.extend(wait_family(1, 1, 1, 8, true, true, true));
+        base.extend(wait_family(2, 1, 0, 8, true, true, false));
+    }
+    let mut out = vec![];
+    let mut seen = HashSet::new();
+    for b in &base {
+        for q in with_cell_pair(b, false, true) {
+            if seen.insert(q.text()) {
+                out.push(q);
+            }
+        }
+    }
+    out
+}
+
+// ------------------------------------------------------------------------------------------
+// ARC / LEAK
+// ------------------------------------------------------------------------------------------
+
+/// Op sequences of one thread that owns handle slot `h` (live at thread start) and a scratch
+/// slot `e` (empty at thread start).
+pub fn arc_threads(h: usize, e: usize, maxlen: usize, with_raw: bool, with_forget: bool) -> Vec<Vec<Op>> {
+    // slot states: live / empty
+    fn rec(ops: &mut Vec<Op>, hl: bool, el: bool, h: usize, e: usize, left: usize, with_raw: bool, with_forget: bool, out: &mut Vec<Vec<Op>>) {
+        if !ops.is_empty() {
+            out.push(ops.clone());
+        }
+        if left == 0 {
+            return;
+        }
+        let mut try_op = |ops: &mut Vec<Op>, k: K, hl2: bool, el2: bool, out: &mut Vec<Vec<Op>>| {
+            ops.push(k.into());
+            rec(ops, hl2, el2, h, e, left - 1, with_raw, with_forget, out);
+            ops.pop();
+        };
+        for (slot, live, is_h) in [(h, hl, true), (e, el, false)] {
+            if !live {
+                continue;
+            }
+            let after = |l: bool| if is_h { (l, el) } else { (hl, l) };
+            let (a, b) = after(true);
+            try_op(ops, K::ArcCount { h: slot }, a, b, out);
+            try_op(ops, K::ArcGetMut { h: slot }, a, b, out);
+            if with_raw {
+                try_op(ops, K::ArcRawRoundTrip { h: slot }, a, b, out);
+            }
+            let (a, b) = after(false);
+            try_op(ops, K::ArcDrop { h: slot }, a, b, out);
+            if with_raw {
+                try_op(ops, K::ArcDecStrong { h: slot }, a, b, out);
+            }
+            if with_forget {
+                try_op(ops, K::ArcForget { h: slot }, a, b, out);
+            }
+            // try_unwrap as the last op on the slot, followed by a drop guarded on failure
+            if left >= 2 {
+                let at = ops.len();
+                ops.push(K::ArcTryUnwrap { h: slot }.into());
+                ops.push(K::ArcDrop { h: slot }.when(at, Res::Err(0)));
+                let (a, b) = after(false);
+                rec(ops, a, b, h, e, left - 2, with_raw, with_forget, out);
+                ops.pop();
+                ops.pop();
+            }
+        }
+        if hl && !el {
+            try_op(ops, K::ArcClone { from: h, to: e }, hl, true, out);
+            if with_raw {
+                try_op(ops, K::ArcIncStrong { h, to: e }, hl, true, out);
+            }
+        }
+        if hl && el {
+            try_op(ops, K::ArcPtrEq { h, h2: e }, hl, el, out);
+        }
+    }
+    let mut out = vec![];
+    rec(&mut vec![], true, false, h, e, maxlen, with_raw, with_forget, &mut out);
+    out
+}
+
+/// ARC family: main creates one arc, hands a clone to each of `nchildren` children; every
+/// thread (main included, between spawn and join) runs a sequence over its own handle.
+pub fn arc_family(nchildren: usize, maxlen: usize, main_len: usize, max_total: usize, with_raw: bool, with_forget: bool, cell: bool) -> Vec<Program> {
+    let mut out = vec![];
+    let mut seen = HashSet::new();
+    let nslots = 2 * (nchildren + 1);
+    let mut pre: Vec<Op> = vec![K::ArcNew { h: 0, arc: 0 }.into()];
+    for t in 1..=nchildren {
+        pre.push(K::ArcClone { from: 0, to: 2 * t }.into());
+    }
+    let pools: Vec<Vec<Vec<Op>>> = (0..=nchildren)
+        .map(|t| {
+            let mut p = arc_threads(2 * t, 2 * t + 1, if t == 0 { main_len } else { maxlen }, with_raw, with_forget);
+            if t == 0 {
+                p.push(vec![]);
+            }
+            p
+        })
+        .collect();
+    fn rec(pools: &[Vec<Vec<Op>>], t: usize, cur: &mut Vec<Vec<Op>>, left: usize, out: &mut Vec<Vec<Vec<Op>>>) {
+        if t == pools.len() {
+            out.push(cur.clone());
+            return;
+        }
+        for th in &pools[t] {
+            if th.len() > left {
+                continue;
+            }
+            cur.push(th.clone());
+            rec(pools, t + 1, cur, left - th.len(), out);
+            cur.pop();
+        }
+    }
+    let mut combos = vec![];
+    rec(&pools, 0, &mut vec![], max_total, &mut combos);
+    for c in combos {
+        // children are symmetric up to slot names: keep only non-decreasing shapes
+        let shapes: Vec<String> = c[1..].iter().map(|t| t.iter().map(|o| format!("{:?}", std::mem::discriminant(&o.k))).collect::<Vec<_>>().join(",")).collect();
+        if shapes.windows(2).any(|w| w[0] > w[1]) {
+            continue;
+        }
+        let shift = pre.len() + nchildren;
+        let main_mid: Vec<Op> = c[0]
+            .iter()
+            .cloned()
+            .map(|mut op| {
+                if let Some(g) = op.g.as_mut() {
+                    g.idx += shift;
+                }
+                op
+            })
+            .collect();
+        let mut children: Vec<Vec<Op>> = c[1..].to_vec();
+        let mut objs = Objs { handles: nslots, arcs: vec![None], ..Default::default() };
+        if cell {
+            // every owner reads the cell before each of its drops; the payload's Drop writes it
+            objs.cells = 1;
+            objs.arcs = vec![Some(0)];
+            for ch in children.iter_mut() {
+                let mut i = 0;
+                while i < ch.len() {
+                    if matches!(ch[i].k, K::ArcDrop { .. } | K::ArcDecStrong { .. } | K::ArcTryUnwrap { .. }) && ch[i].g.is_none() {
+                        let q = Program { name: String::new(), objs: Objs::default(), threads: vec![ch.clone()] };
+                        *ch = insert_op(&q, 0, i, rd(0)).threads.remove(0);
+                        i += 1;
+                    }
+                    i += 1;
+                }
+            }
+        }
+        let p = with_main(if cell { "ARC+cell" } else { "ARC" }, objs, pre.clone(), children, main_mid, vec![]);
+        if seen.insert(p.text()) {
+            out.push(p);
+        }
+    }
+    out
+}
+
+/// LEAK family: tracked values, raw allocations, arcs and channel messages that are released or
+/// not depending on the result of a CAS race.
+pub fn leak_family() -> Vec<Program> {
+    use crate::ir::MO::*;
+    let mut out = vec![];
+    // every "resource" as (acquire ops in main before spawn, release op, leak op)
+    #[derive(Clone)]
+    struct R {
+        name: &'static str,
+        pre: Vec<Op>,
+        release: Option<K>,
+        leak: Option<K>,
+    }
+    let res = vec![
+        R { name: "arc", pre: vec![K::ArcNew { h: 0, arc: 0 }.into()], release: Some(K::ArcDrop { h: 0 }), leak: Some(K::ArcForget { h: 0 }) },
+        R { name: "track", pre: vec![K::TrackNew { k: 0 }.into()], release: Some(K::TrackDrop { k: 0 }), leak: Some(K::TrackForget { k: 0 }) },
+        R { name: "alloc", pre: vec![K::Alloc { k: 0 }.into()], release: Some(K::Dealloc { k: 0 }), leak: None },
+        R { name: "msg", pre: vec![K::Send { ch: 0, v: 1 }.into()], release: Some(K::Recv { ch: 0 }), leak: Some(K::ForgetRx { ch: 0 }) },
+    ];
+    let objs = |_r: &R| Objs { atomics: vec![0], handles: 1, arcs: vec![None], tracks: 1, allocs: 1, chans: 1, ..Default::default() };
+    for r in &res {
+        // (1) always released by a child; (2) never released; (3) explicitly leaked;
+        // (4) released only by the CAS winner's sibling: T1 and T2 race on a CAS, T1 releases iff it
+        //     won, T2 never does => leak in the schedules T2 wins; (5) both release-if-won => clean
+        if let Some(rel) = &r.release {
+            out.push(with_main(&format!("LEAK-{}-released", r.name), objs(r), r.pre.clone(), vec![vec![rel.clone().into()]], vec![], vec![]));
+            out.push(with_main(&format!("LEAK-{}-not-released", r.name), objs(r), r.pre.clone(), vec![vec![ld(0, Rlx)]], vec![], vec![]));
+            out.push(with_main(
+                &format!("LEAK-{}-winner-releases", r.name),
+                objs(r),
+                r.pre.clone(),
+                vec![vec![cas(0, 0, 1, AcqRel, Acq), rel.clone().when(0, Res::Ok(0))], vec![cas(0, 0, 2, AcqRel, Acq)]],
+                vec![],
+                vec![],
+            ));
+            out.push(with_main(
+                &format!("LEAK-{}-either-releases", r.name),
+                objs(r),
+                r.pre.clone(),
+                vec![vec![cas(0, 0, 1, AcqRel, Acq), rel.clone().when(0, Res::Ok(0))], vec![cas(0, 0, 2, AcqRel, Acq), rel.clone().when(0, Res::Ok(0))]],
+                vec![],
+                vec![],
+            ));
+        }
+        if let Some(lk) = &r.leak {
+            out.push(with_main(&format!("LEAK-{}-leaked", r.name), objs(r), r.pre.clone(), vec![vec![lk.clone().into()]], vec![], vec![]));
+            if let Some(rel) = &r.release {
+                // leaked by the CAS winner, released by the loser
+                out.push(with_main(
+                    &format!("LEAK-{}-winner-leaks", r.name),
+                    objs(r),
+                    r.pre.clone(),
+                    vec![vec![cas(0, 0, 1, AcqRel, Acq), lk.clone().when(0, Res::Ok(0)), rel.clone().when(0, Res::Err(2))], vec![cas(0, 0, 2, AcqRel, Acq)]],
+                    vec![],
+                    vec![],
+                ));
+            }
+        }
+    }
+    // send after the receiver was dropped: nothing leaks (D10)
+    out.push(with_main("LEAK-send-after-drop", Objs { chans: 1, ..Default::default() }, vec![], vec![vec![K::Send { ch: 0, v: 1 }.into()], vec![K::DropRx { ch: 0 }.into()]], vec![], vec![]));
+    out.push(with_main("LEAK-send-send-drop", Objs { chans: 1, ..Default::default() }, vec![], vec![vec![K::Send { ch: 0, v: 1 }.into()], vec![K::Send { ch: 0, v: 2 }.into()], vec![K::DropRx { ch: 0 }.into()]], vec![], vec![]));
     out
 }
